@@ -1,4 +1,5 @@
 import Pyxv.Proofs.SettingsLemmas
+import Pyxv.Model.SettingsRows
 /-!
 # C11 — settings reach the form header verbatim
 -/
@@ -231,16 +232,115 @@ theorem rootList_read (attrs : List (Str × Str)) (id : Str) (x : Option Str) (v
       and_true]
     cases agetLast k attrs <;> rfl
 
-/-- **Root attributes (partial)**: proved for a plain ordered dict as attribute store
+/-! ### minidom's `setAttribute` is a dict assignment when local names are pairwise distinct -/
+
+/-- no two names of the list differ only by a prefix -/
+def LocalsDistinct (ks : List Str) : Prop := ∀ x ∈ ks, ∀ y ∈ ks, localName x = localName y → x = y
+
+theorem domSet_eq_aset {k v : Str} {l : List (Str × Str)}
+    (h : ∀ p ∈ l, localName p.1 = localName k → p.1 = k) : domSet k v l = aset k v l := by
+  unfold domSet
+  by_cases hs : (aget k l).isSome = true
+  · simp [hs]
+  · have hnone : aget k l = none := by
+      cases hk : aget k l with
+      | none => rfl
+      | some x => simp [hk] at hs
+    have hf : l.filter (fun p => localName p.1 != localName k) = l := by
+      apply List.filter_eq_self.mpr
+      intro p hp
+      by_cases hl : localName p.1 = localName k
+      · have hpk : p.1 = k := h p hp hl
+        have : k ∈ keys l := by
+          rw [← hpk]; exact List.mem_map.mpr ⟨p, hp, rfl⟩
+        have := aget_isSome_of_mem this
+        simp [hnone] at this
+      · simpa using hl
+    simp only [hs, Bool.false_eq_true, if_false, hf]
+    exact (aset_of_aget_none hnone).symm
+
+/-- the two stores hold the same list, all of whose names belong to `K` -/
+structure Agree (K : List Str) (a b : List (Str × Str)) : Prop where
+  eq : a = b
+  inv : ∀ p ∈ b, p.1 ∈ K
+
+theorem Agree.nil (K : List Str) : Agree K [] [] := ⟨rfl, by simp⟩
+
+theorem mem_keys_aset {k : Str} {v : Str} {l : List (Str × Str)} {p : Str × Str}
+    (hp : p ∈ aset k v l) : p.1 = k ∨ p.1 ∈ keys l := by
+  have : p.1 ∈ keys (aset k v l) := List.mem_map.mpr ⟨p, hp, rfl⟩
+  rw [keys_aset] at this
+  split at this
+  · exact Or.inr this
+  · rcases List.mem_append.mp this with h | h
+    · exact Or.inr h
+    · simp at h; exact Or.inl h
+
+theorem Agree.set {K : List Str} (hK : LocalsDistinct K) {a b : List (Str × Str)} (h : Agree K a b)
+    {k : Str} (v : Str) (hk : k ∈ K) : Agree K (domSet k v a) (aset k v b) := by
+  refine ⟨?_, ?_⟩
+  · rw [h.eq]
+    exact domSet_eq_aset fun p hp hl => hK _ (h.inv p hp) _ hk hl
+  · intro p hp
+    rcases mem_keys_aset hp with h1 | h1
+    · rw [h1]; exact hk
+    · obtain ⟨q, hq, hqe⟩ := List.mem_map.mp h1
+      rw [← hqe]; exact h.inv q hq
+
+theorem Agree.setOpt {K : List Str} (hK : LocalsDistinct K) {a b : List (Str × Str)} (h : Agree K a b)
+    (k : String) (v : Option Str) (hk : k.toList ∈ K) :
+    Agree K (Settings.setOpt domSet k v a) (Settings.setOpt aset k v b) := by
+  cases v with
+  | none => exact h
+  | some x => exact h.set hK x hk
+
+theorem Agree.fold {K : List Str} (hK : LocalsDistinct K) (ops : List (Str × Str))
+    {a b : List (Str × Str)} (h : Agree K a b) (hops : ∀ p ∈ ops, p.1 ∈ K) :
+    Agree K (ops.foldl (fun acc kv => domSet kv.1 kv.2 acc) a) (ops.foldl (fun acc kv => aset kv.1 kv.2 acc) b) := by
+  induction ops generalizing a b with
+  | nil => exact h
+  | cons p r ih =>
+    exact ih (h.set hK p.2 (hops p (by simp))) (fun q hq => hops q (by simp [hq]))
+
+/-- the names the primary instance root can carry -/
+def rootNames (attrs : List (Str × Str)) : List Str :=
+  [S "id", S "xmlns", S "version", S "odk:prefix", S "odk:delimiter"] ++ attrs.map (·.1)
+
+/-- **Bridging theorem**: when no two of the root's attribute names differ only by a prefix, what
+    minidom's `setAttribute` builds is exactly what a plain ordered dict would hold. -/
+theorem rootList_domSet_eq_aset (attrs : List (Str × Str)) (id : Str) (x : Option Str) (ver : Str)
+    (p d : Option Str) (hK : LocalsDistinct (rootNames attrs)) :
+    rootList domSet attrs id x ver p d = rootList aset attrs id x ver p d := by
+  have h1 := Agree.fold hK attrs (Agree.nil (rootNames attrs))
+    (fun q hq => by simp only [rootNames]; exact List.mem_append_right _ (List.mem_map.mpr ⟨q, hq, rfl⟩))
+  have h2 := h1.set hK id (k := S "id") (List.mem_append_left _ (by decide))
+  have h3 := h2.setOpt hK "xmlns" x (List.mem_append_left _ (by decide))
+  have h4 : Agree (rootNames attrs)
+      (if ver.isEmpty then Settings.setOpt domSet "xmlns" x
+          (domSet (S "id") id (attrs.foldl (fun acc kv => domSet kv.1 kv.2 acc) []))
+        else domSet (S "version") ver (Settings.setOpt domSet "xmlns" x
+          (domSet (S "id") id (attrs.foldl (fun acc kv => domSet kv.1 kv.2 acc) []))))
+      (if ver.isEmpty then Settings.setOpt aset "xmlns" x
+          (aset (S "id") id (attrs.foldl (fun acc kv => aset kv.1 kv.2 acc) []))
+        else aset (S "version") ver (Settings.setOpt aset "xmlns" x
+          (aset (S "id") id (attrs.foldl (fun acc kv => aset kv.1 kv.2 acc) [])))) := by
+    split
+    · exact h3
+    · exact h3.set hK ver (k := S "version") (List.mem_append_left _ (by decide))
+  have h5 := h4.setOpt hK "odk:prefix" p (List.mem_append_left _ (by decide))
+  have h6 := h5.setOpt hK "odk:delimiter" d (List.mem_append_left _ (by decide))
+  exact h6.eq
+
+/-- **Root attributes, dict level**: proved for a plain ordered dict as attribute store
     (`rootAttrsWith aset`): every attribute name of the primary instance root then carries exactly
     the value the table prescribes (`id`/`xmlns`/`version`/`odk:prefix`/`odk:delimiter` from their own
     settings, winning over an `attribute::` column of the same name; anything else from
     `attribute::k`).
-    Full statement (NOT provable, the code violates it): the same for `rootAttrsOf = rootAttrsWith domSet`,
-    i.e. for minidom's `setAttribute`, which additionally evicts every attribute with the same *local*
-    name (`jr:x` vs `x`) — see `root_attrs_gap` for the counterexample on the model and known finding
-    `C11-attribute-same-local-name-evicted` for the same input on the implementation. -/
-theorem root_attrs_partial {st : Dict} (hn : (keys st).Nodup) (a : Args) (k : Str) :
+    The real store is minidom's `setAttribute` (`rootAttrsOf = rootAttrsWith domSet`), which additionally
+    evicts every attribute with the same *local* name (`jr:x` vs `x`): `root_attrs` is the statement for
+    it under the guard that excludes exactly this, `root_attrs_gap` the counterexample without the guard
+    (known finding `C11-attribute-same-local-name-evicted` on the implementation). -/
+theorem root_attrs_dict {st : Dict} (hn : (keys st).Nodup) (a : Args) (k : Str) :
     aget k (rootAttrsWith aset (surveyOf (jsonRoot st a))) = Spec.rootAttr (sig st) a k := by
   have hpfx : (surveyOf (jsonRoot st a)).pfx = Spec.opt (aget (S "prefix") st) := sv_opt hn a "prefix" dn
   have hdel : (surveyOf (jsonRoot st a)).delimiter = Spec.opt (aget (S "delimiter") st) :=
@@ -251,12 +351,26 @@ theorem root_attrs_partial {st : Dict} (hn : (keys st).Nodup) (a : Args) (k : St
   rw [rootList_read, sv_attrib hn a, sv_idString hn a, sv_version hn a, hpfx, hdel, hx]
   rfl
 
-/-- the gap of `root_attrs_partial`, exhibited on the model: `attribute::jr:x` and `attribute::x`
+/-- the gap of `root_attrs_dict`, exhibited on the model: `attribute::jr:x` and `attribute::x`
     → the header has lost `jr:x`, although the table prescribes it -/
 theorem root_attrs_gap :
     let st : Dict := [(S "attribute", .d [(S "jr:x", S "1"), (S "x", S "2")])]
     aget (S "jr:x") (headerOf st {}).rootAttrs = none ∧ Spec.rootAttr (sig st) {} (S "jr:x") = some (S "1") := by
   decide +kernel
+
+/-- **root_attrs** (guarded full statement for the real attribute store): when no two attribute
+    names the settings prescribe for the primary instance root differ only by a prefix, every
+    attribute name of the root that minidom ends up with carries exactly the value the table
+    prescribes.  The guard is the complement of the open finding's input shape. -/
+theorem root_attrs {st : Dict} (hn : (keys st).Nodup) (a : Args) (k : Str)
+    (hK : LocalsDistinct (Spec.rootAttrKeys (sig st))) :
+    aget k (rootAttrsOf (surveyOf (jsonRoot st a))) = Spec.rootAttr (sig st) a k := by
+  have hb : rootAttrsOf (surveyOf (jsonRoot st a)) = rootAttrsWith aset (surveyOf (jsonRoot st a)) := by
+    unfold rootAttrsOf rootAttrsWith
+    apply rootList_domSet_eq_aset
+    rw [sv_attrib hn a]
+    exact hK
+  rw [hb, root_attrs_dict hn]
 
 /-! ## the property theorems -/
 
@@ -333,12 +447,33 @@ theorem no_leak {st st' : Dict} {a : Args} {h h' : Header} (hn : (keys st).Nodup
   rw [settings_header hn hh L hL, settings_header hn' hh' L hL]
   exact want_congr a L hd
 
-/-- noninterference for the root attributes, dict level (see `root_attrs_partial` for the gap) -/
-theorem no_leak_root_attrs_partial {st st' : Dict} (a : Args) (hn : (keys st).Nodup) (hn' : (keys st').Nodup)
+/-- noninterference for the root attributes, dict level (see `root_attrs_dict` for the gap) -/
+theorem no_leak_root_attrs_dict {st st' : Dict} (a : Args) (hn : (keys st).Nodup) (hn' : (keys st').Nodup)
     (k : Str) (hd : ∀ s ∈ Spec.deps (.rootAttr k), aget s.toList st = aget s.toList st') :
     aget k (rootAttrsWith aset (surveyOf (jsonRoot st a))) = aget k (rootAttrsWith aset (surveyOf (jsonRoot st' a))) := by
-  rw [root_attrs_partial hn, root_attrs_partial hn']
+  rw [root_attrs_dict hn, root_attrs_dict hn']
   exact want_congr a (.rootAttr k) hd
+
+/-- **settings_header_all**: under the local-name guard the statement of `settings_header` holds at
+    *every* header location, root attributes included. -/
+theorem settings_header_all {st : Dict} {a : Args} {h : Header} (hn : (keys st).Nodup)
+    (hh : header st a = .ok h) (hK : LocalsDistinct (Spec.rootAttrKeys (sig st))) (L : Loc) :
+    h.read L = Spec.want (sig st) a L := by
+  cases L with
+  | rootAttr k =>
+    have := header_ok hh
+    subst this
+    exact root_attrs hn a k hK
+  | _ => exact settings_header hn hh _ (by intro k hk; cases hk)
+
+/-- **no_leak_all**: noninterference at every location, root attributes included, for settings whose
+    root attribute names are free of local-name collisions. -/
+theorem no_leak_all {st st' : Dict} {a : Args} {h h' : Header} (hn : (keys st).Nodup) (hn' : (keys st').Nodup)
+    (hh : header st a = .ok h) (hh' : header st' a = .ok h')
+    (hK : LocalsDistinct (Spec.rootAttrKeys (sig st))) (hK' : LocalsDistinct (Spec.rootAttrKeys (sig st')))
+    (L : Loc) (hd : ∀ k ∈ Spec.deps L, aget k.toList st = aget k.toList st') : h.read L = h'.read L := by
+  rw [settings_header_all hn hh hK L, settings_header_all hn' hh' hK' L]
+  exact want_congr a L hd
 
 /-- the `form_name` argument reaches the root element name and nothing else -/
 theorem form_name_only_root_name (σ : Spec.Sigma) (a : Args) (x : Option Str) (L : Loc) (hL : L ≠ .rootName) :
@@ -430,6 +565,273 @@ theorem dealias_nodup {hdr : List Str} {row : List (Str × Str)} {st : Dict}
         rw [keys_cleanD]
         exact processRow_nodup ho (by simp [keys])
 
+/-! ## what each column of the settings sheet contributes (`dealias_and_group_headers` + `process_row`) -/
+
+/-- the scalar setting a cell feeds: `(token, text)` when its header has one token -/
+def scalarOf (ks : Keys) (hv : Str × Str) : Option (Str × Str) :=
+  match aget hv.1 ks.hk with
+  | some [t] => some (t, hv.2)
+  | _ => none
+
+/-- the custom root attribute a cell feeds: `(name, text)` for an `attribute::name` header -/
+def attrOf (ks : Keys) (hv : Str × Str) : Option (Str × Str) :=
+  match aget hv.1 ks.hk with
+  | some [a, k] => if a == S "attribute" then some (k, hv.2) else none
+  | _ => none
+
+/-- `settings["attribute"][k]` -/
+def attrGet (k : Str) (d : Dict) : Option Str :=
+  match aget (S "attribute") d with
+  | some (.d kv) => aget k kv
+  | _ => none
+
+theorem attribute_is_unmodelled_slot : isColumn (S "attribute") = true ∧ isModelled (S "attribute") = false := by
+  decide +kernel
+
+theorem aget_append_single {k k' : Str} {v : Str} (l : List (Str × Str)) :
+    aget k (l ++ [(k', v)]) = match aget k l with | some x => some x | none => if k = k' then some v else none := by
+  induction l with
+  | nil => simp [aget]
+  | cons p r ih =>
+    obtain ⟨a, b⟩ := p
+    by_cases h : k = a
+    · simp [aget, h]
+    · simp [aget, h, ih]
+
+theorem rowStep_scalar {ks : Keys} {out out' : Dict} {hv : Str × Str} (h : rowStep ks out hv = .ok out')
+    {t : Str} (ht : t ≠ S "attribute") :
+    aget t out' = match scalarOf ks hv with
+      | some (t', v) => if t = t' then some (.s v) else aget t out
+      | none => aget t out := by
+  unfold rowStep at h
+  by_cases he : hv.2.isEmpty = true
+  · simp [he] at h
+  · simp only [he, Bool.false_eq_true, if_false] at h
+    unfold scalarOf
+    cases hk : aget hv.1 ks.hk with
+    | none => simp [hk] at h
+    | some toks =>
+      simp only [hk] at h
+      match toks, h with
+      | [], h => simp at h
+      | [t'], h =>
+        simp only at h
+        split at h
+        · cases h
+        · cases h
+          simp only [aget_aset]
+      | [a, k], h =>
+        simp only at h
+        split at h
+        · unfold mergeAttr at h
+          split at h
+          · cases h; simp [aget_aset, ht]
+          · split at h
+            · cases h; simp [aget_aset, ht]
+            · cases h
+          · cases h
+        · cases h
+      | _ :: _ :: _ :: _, h => simp at h
+
+theorem rowStep_attr {ks : Keys} {out out' : Dict} {hv : Str × Str} (h : rowStep ks out hv = .ok out')
+    (k' : Str) :
+    attrGet k' out' = match attrOf ks hv with
+      | some (k, v) => if k' = k then some v else attrGet k' out
+      | none => attrGet k' out := by
+  unfold rowStep at h
+  by_cases he : hv.2.isEmpty = true
+  · simp [he] at h
+  · simp only [he, Bool.false_eq_true, if_false] at h
+    unfold attrOf
+    cases hk : aget hv.1 ks.hk with
+    | none => simp [hk] at h
+    | some toks =>
+      simp only [hk] at h
+      match toks, h with
+      | [], h => simp at h
+      | [t'], h =>
+        simp only at h
+        split at h
+        · cases h
+        · rename_i hc
+          cases h
+          have hne : ¬ S "attribute" = t' := by
+            intro heq
+            subst heq
+            simp [attribute_is_unmodelled_slot.1, attribute_is_unmodelled_slot.2] at hc
+          simp only [attrGet, aget_aset, hne, if_false]
+      | [a, k], h =>
+        simp only at h
+        split at h
+        · rename_i ha
+          have ha' : a = S "attribute" := by simpa using ha
+          unfold mergeAttr at h
+          split at h
+          · rename_i hnone
+            cases h
+            simp only [attrGet, aget_aset, if_true, hnone, aget, ha']
+            by_cases hkk : k' = k <;> simp [hkk]
+          · split at h
+            · rename_i _ kv hsome _ hknone
+              cases h
+              simp only [attrGet, aget_aset, if_true, hsome, aget_append_single, ha']
+              by_cases hkk : k' = k
+              · subst hkk; simp [hknone]
+              · simp [hkk]; cases aget k' kv <;> rfl
+            · cases h
+          · cases h
+        · cases h
+      | _ :: _ :: _ :: _, h => simp at h
+
+theorem processRow_scalar {ks : Keys} {row : List (Str × Str)} {out0 out : Dict}
+    (h : processRow ks row out0 = .ok out) {t : Str} (ht : t ≠ S "attribute") :
+    aget t out = match agetLast t (row.filterMap (scalarOf ks)) with
+      | some v => some (.s v)
+      | none => aget t out0 := by
+  induction row generalizing out0 with
+  | nil => cases h; simp [agetLast]
+  | cons hv r ih =>
+    unfold processRow at h
+    split at h
+    · rename_i out1 h1
+      rw [ih h, rowStep_scalar h1 ht]
+      cases hs : scalarOf ks hv with
+      | none => simp [List.filterMap_cons, hs]
+      | some p =>
+        obtain ⟨t', v⟩ := p
+        simp only [List.filterMap_cons, hs, agetLast]
+        cases agetLast t (List.filterMap (scalarOf ks) r) with
+        | some x => rfl
+        | none => by_cases htt : t = t' <;> simp [htt]
+    · cases h
+
+theorem processRow_attr {ks : Keys} {row : List (Str × Str)} {out0 out : Dict}
+    (h : processRow ks row out0 = .ok out) (k : Str) :
+    attrGet k out = match agetLast k (row.filterMap (attrOf ks)) with
+      | some v => some v
+      | none => attrGet k out0 := by
+  induction row generalizing out0 with
+  | nil => cases h; simp [agetLast]
+  | cons hv r ih =>
+    unfold processRow at h
+    split at h
+    · rename_i out1 h1
+      rw [ih h, rowStep_attr h1 k]
+      cases hs : attrOf ks hv with
+      | none => simp [List.filterMap_cons, hs]
+      | some p =>
+        obtain ⟨k1, v⟩ := p
+        simp only [List.filterMap_cons, hs, agetLast]
+        cases agetLast k (List.filterMap (attrOf ks) r) with
+        | some x => rfl
+        | none => by_cases hkk : k = k1 <;> simp [hkk]
+    · cases h
+
+/-- the header table: every header of the header row is read by `process_header` -/
+theorem buildKeys_hk {useDC : Bool} {hdr : List Str} {ks0 ks : Keys} (h : buildKeys useDC hdr ks0 = .ok ks)
+    (x : Str) :
+    aget x ks.hk = match aget x ks0.hk with
+      | some toks => some toks
+      | none => if x ∈ hdr then some (processHeader useDC x).2 else none := by
+  induction hdr generalizing ks0 with
+  | nil => cases h; cases aget x ks.hk <;> rfl
+  | cons h0 r ih =>
+    unfold buildKeys at h
+    split at h
+    · rename_i ks1 h1
+      rw [ih h]
+      have hstep : aget x ks1.hk = match aget x ks0.hk with
+          | some toks => some toks
+          | none => if x = h0 then some (processHeader useDC x).2 else none := by
+        unfold headerStep at h1
+        split at h1
+        · cases h1
+        · split at h1
+          · rename_i toks0 hsome
+            cases h1
+            by_cases hx : x = h0
+            · subst hx; simp [hsome]
+            · cases aget x ks0.hk <;> simp [hx]
+          · rename_i hnone
+            have key : ∀ ks', ks' = (⟨aset h0 (processHeader useDC h0).2 ks0.hk,
+                  aset (processHeader useDC h0).2 h0 ks0.tk⟩ : Keys) → aget x ks'.hk = match aget x ks0.hk with
+                | some toks => some toks
+                | none => if x = h0 then some (processHeader useDC x).2 else none := by
+              intro ks' hks'
+              subst hks'
+              simp only [aget_aset]
+              by_cases hx : x = h0
+              · subst hx; simp [hnone]
+              · simp [hx]; cases aget x ks0.hk <;> rfl
+            simp only [] at h1
+            split at h1
+            · split at h1
+              · cases h1
+              · cases h1; exact key _ rfl
+            · cases h1; exact key _ rfl
+      rw [hstep]
+      cases aget x ks0.hk with
+      | some toks => rfl
+      | none =>
+        by_cases hx : x = h0
+        · simp [hx]
+        · simp [hx]
+    · cases h
+
+theorem aget_cleanD (t : Str) (d : Dict) : aget t (cleanD d) = (aget t d).map cleanSV := by
+  induction d with
+  | nil => rfl
+  | cons p r ih =>
+    obtain ⟨k, v⟩ := p
+    by_cases h : t = k
+    · simp [cleanD, aget, h]
+    · have : aget t (cleanD r) = (aget t r).map cleanSV := ih
+      simp [cleanD, aget, h] at this ⊢
+      exact this
+
+theorem attrGet_cleanD (k : Str) (d : Dict) : attrGet k (cleanD d) = attrGet k d := by
+  unfold attrGet
+  rw [aget_cleanD]
+  cases aget (S "attribute") d with
+  | none => rfl
+  | some x => cases x <;> rfl
+
+/-- **dealias_columns** (what every column of the settings sheet contributes, for all header rows
+    and rows): when the sheet is accepted, (1) each header of the header row is read by
+    `process_header` (snake-casing, alias table, slot table — see `documented_spellings`);
+    (2) a scalar setting `t` holds the smart-quote-cleaned text of the *last* cell of row 0 whose
+    header reads as `t`, and is absent when no cell does; (3) the custom root attribute `k` holds the
+    raw text of the `attribute::k` cell, and is absent when there is none.  Nothing else enters the
+    settings dict. -/
+theorem dealias_columns {hdr : List Str} {row : List (Str × Str)} {st : Dict} (h : dealias hdr row = .ok st) :
+    ∃ ks : Keys,
+      (∀ x, aget x ks.hk =
+        if x ∈ (popIdString hdr row).1 then
+          some (processHeader ((popIdString hdr row).1.any fun h => isInfix (S "::") h) x).2 else none) ∧
+      (∀ t, t ≠ S "attribute" →
+        aget t st = (agetLast t ((popIdString hdr row).2.filterMap (scalarOf ks))).map fun v => .s (cleanVal v)) ∧
+      (∀ k, attrGet k st = agetLast k ((popIdString hdr row).2.filterMap (attrOf ks))) := by
+  simp only [dealias] at h
+  split at h
+  · cases h
+  · rename_i ks hks
+    split at h
+    · cases h
+    · rename_i out hout
+      split at h
+      · cases h
+      · cases h
+        refine ⟨ks, ?_, ?_, ?_⟩
+        · intro x
+          have := buildKeys_hk hks x
+          simpa [aget] using this
+        · intro t ht
+          rw [aget_cleanD, processRow_scalar hout ht]
+          cases agetLast t (List.filterMap (scalarOf ks) (popIdString hdr row).2) <;> simp [cleanSV, aget]
+        · intro k
+          rw [attrGet_cleanD, processRow_attr hout k]
+          cases agetLast k (List.filterMap (attrOf ks) (popIdString hdr row).2) <;> simp [attrGet, aget]
+
 /-- **model_header**: the whole modelled path (header row + row 0 of the settings sheet + arguments):
     an accepted form's header is, at every location other than the root attributes, what the table
     prescribes for the dealiased settings. -/
@@ -442,6 +844,106 @@ theorem model_header {hdr : List Str} {row : List (Str × Str)} {a : Args} {h : 
   · rename_i st hst
     exact ⟨st, hst, dealias_nodup hst, fun L hL => settings_header (dealias_nodup hst) hm L hL⟩
   · cases hm
+
+/-! ## settings rows on the survey sheet -/
+
+theorem header2_nil (st : Dict) (a : Args) : header2 st [] a = header st a := rfl
+
+/-- a slot that no settings row of the survey sheet targets keeps the value of the settings sheet -/
+theorem jsonRoot2_other {st : Dict} (a : Args) (ss : List (Str × Option Str)) {k : Str}
+    (hk : agetLast k (surveyAssigns ss) = none) : aget k (jsonRoot2 st a ss) = aget k (jsonRoot st a) := by
+  rw [jsonRoot2, aget_aupdate, hk]
+
+/-- the settings aliases target only `title`, `id_string` and `prefix` (current alias table) -/
+theorem survey_row_targets :
+    (Pyxv.Gen.aliasSettingsHeader.all fun p => ["title", "id_string", "prefix"].contains p.2) = true := by decide
+
+section Rows
+variable {st : Dict} (hn : (keys st).Nodup) (a : Args) (ss : List (Str × Option Str))
+include hn
+
+/-- **survey_rows_title**: with settings rows on the survey sheet the title is the name cell of the
+    last title row; without one it is what the settings sheet gives (default: the settings sheet's id,
+    not a survey-sheet id). -/
+theorem survey_rows_title :
+    (surveyOf (jsonRoot2 st a ss)).title = Spec.title (Spec.overlay (sig st) a (surveyAssigns ss)) a := by
+  show slotStr (jsonRoot2 st a ss) "title" = _
+  rw [slotStr_eq, jsonRoot2, aget_aupdate]
+  unfold Spec.title Spec.overlay
+  cases h : agetLast (S "title") (surveyAssigns ss) with
+  | some x => simp [h]
+  | none =>
+    have := sv_title hn a
+    have h2 : slotStr (jsonRoot st a) "title" = Spec.title (sig st) a := this
+    rw [slotStr_eq] at h2
+    simp only [h]
+    rw [h2]
+    unfold Spec.title
+    cases h3 : sig st (S "title") with
+    | some x => simp [h3]
+    | none => simp [h3, Spec.txt]
+
+/-- **survey_rows_id**: likewise for the id (`form_id` / `set_form_id` rows) -/
+theorem survey_rows_id :
+    (surveyOf (jsonRoot2 st a ss)).idString = Spec.idString (Spec.overlay (sig st) a (surveyAssigns ss)) a := by
+  show slotStr (jsonRoot2 st a ss) "id_string" = _
+  rw [slotStr_eq, jsonRoot2, aget_aupdate]
+  unfold Spec.idString Spec.overlay
+  cases h : agetLast (S "id_string") (surveyAssigns ss) with
+  | some x => simp [h]
+  | none =>
+    have h2 : slotStr (jsonRoot st a) "id_string" = Spec.idString (sig st) a := sv_idString hn a
+    rw [slotStr_eq] at h2
+    have hne : ¬ (S "id_string" = S "title") := by decide
+    simp only [h, hne, if_false]
+    rw [h2]
+    rfl
+
+/-- **survey_rows_prefix**: likewise for `odk:prefix` (`prefix` rows) -/
+theorem survey_rows_prefix :
+    (surveyOf (jsonRoot2 st a ss)).pfx = Spec.opt (Spec.overlay (sig st) a (surveyAssigns ss) (S "prefix")) := by
+  show slotOpt (jsonRoot2 st a ss) "prefix" = _
+  rw [slotOpt_eq, jsonRoot2, aget_aupdate]
+  unfold Spec.overlay
+  cases h : agetLast (S "prefix") (surveyAssigns ss) with
+  | some x => simp [h]
+  | none =>
+    have hne : ¬ (S "prefix" = S "title") := by decide
+    simp only [h, hne, if_false]
+    rw [aget_jsonRoot_plain hn a dn]
+
+end Rows
+
+/-- non-vacuity: a `form_id` row on the survey sheet changes the id but not the title default -/
+example :
+    let st : Dict := [(S "version", .s (S "3"))]
+    let ss : List (Str × Option Str) := [(S "form_id", some (S "SID")), (S "text", some (S "q")), (S "form_title", none)]
+    ∃ h, header2 st ss { fallback := some (S "file") } = .ok h ∧ h.read (.rootAttr (S "id")) = some (S "SID") ∧
+      h.read .title = some (S "None") ∧
+      (∃ h', header2 st [(S "form_id", some (S "SID"))] { fallback := some (S "file") } = .ok h' ∧
+        h'.read .title = some (S "file")) := by
+  refine ⟨_, rfl, by decide +kernel, by decide +kernel, _, rfl, by decide +kernel⟩
+
+/-! ## the `default_language` argument -/
+
+theorem defaultLanguageValue_eq : Pyxv.Gen.defaultLanguageValue.toList = S "default" := by decide
+
+/-- **default_language_slot**: the Survey's default language is the settings sheet's
+    `default_language`, else the `default_language` argument, else `default` — and depends on nothing
+    else (no other setting, not `form_name`, not the file name). -/
+theorem default_language_slot {st : Dict} (hn : (keys st).Nodup) (a : Args) :
+    defaultLanguageOf st a = Spec.defaultLanguage (sig st) a := by
+  unfold defaultLanguageOf
+  have hd : aget (S "default_language") (defaults st a)
+      = some ((aget (S "default_language") st).getD (.s (a.defaultLanguage.getD Pyxv.Gen.defaultLanguageValue.toList))) := by
+    simp only [defaults]
+    rw [aget_cons_ne (by decide), aget_cons_ne (by decide), aget_cons_ne (by decide), aget_cons_ne (by decide),
+      aget_cons_ne (by decide), aget_cons_eq]
+  rw [slotStr_eq, aget_jsonRoot hn, hd, defaultLanguageValue_eq]
+  unfold Spec.defaultLanguage
+  cases h2 : aget (S "default_language") st with
+  | some y => simp [sig, h2]
+  | none => simp [sig, h2, Spec.txt]
 
 /-! ## facts about the tables regenerated from the source (re-checked on every run) -/
 
@@ -531,6 +1033,17 @@ example :
 example : header [(S "omit_instanceID", .s (S "yes")), (S "public_key", .s (S "k"))] {} = .error (.err .omitWithKey) ∧
     header [(S "id_string", .s (S "None"))] {} = .error (.err .emptyId) ∧
     header [(S "name", .s (S "1a"))] {} = .error (.err (.badName (S "1a"))) := by
+  decide +kernel
+
+/-- the guard of `root_attrs` / `settings_header_all` holds for a sheet with prefixed and plain custom
+    attributes next to all five own attributes, and the header is accepted -/
+example :
+    let st : Dict := [(S "attribute", .d [(S "jr:x", S "1"), (S "y", S "2"), (S "odk:z", S "3")]),
+      (S "id_string", .s (S "f")), (S "version", .s (S "1")), (S "prefix", .s (S "p")),
+      (S "delimiter", .s (S "d")), (S "instance_xmlns", .s (S "urn:x"))]
+    (keys st).Nodup ∧ LocalsDistinct (Spec.rootAttrKeys (sig st)) ∧ (∃ h, header st {} = .ok h) := by
+  refine ⟨by decide +kernel, ?_, _, rfl⟩
+  unfold LocalsDistinct
   decide +kernel
 
 /-- the XML validation pass rejects, and a `${ref}` in an `attribute::` value is header text like any
